@@ -771,3 +771,516 @@ Proof.
   - rewrite r_hdel_None in * by done. cbv beta iota in *. cbn [Z.eqb fst] in *.
     by apply (red_put_seeder_step ih v6 pk t st sp).
 Qed.
+
+(* ---- collectGarbage *)
+Lemma gc_inner k fs st :
+  no_empty_hash st → NoDup fs → (∀ f, f ∈ fs → is_Some (r_hash k st !! f)) →
+  foldr (λ f '(st, c), let '(st, r) := r_hdel k f st in (st, c + r)) (st, 0) fs
+  = (r_put k (foldr delete (r_hash k st) fs) st, Z.of_nat (length fs)).
+Proof.
+  intros Hne. induction fs as [|f fs IH]; intros Hnd Hin.
+  - cbn. by rewrite r_put_id.
+  - apply NoDup_cons in Hnd as [Hf Hnd]. cbn [foldr]. rewrite IH; [|done|].
+    2:{ intros f' Hf'. apply Hin. by right. }
+    cbv beta iota. rewrite r_hdel_Some.
+    2:{ rewrite r_hash_put, lookup_foldr_delete_not_elem_of by done. apply Hin. by left. }
+    rewrite r_hash_put, r_put_put. f_equal. cbn [length]. lia.
+Qed.
+
+Lemma size_stale_fresh (T : Z) (h : gmap (list Z) Z) :
+  (size (filter (λ kv : list Z * Z, (kv.2 ≤ T)%Z) h) + size (fresh T h))%nat = size h.
+Proof.
+  unfold fresh. induction h as [|i x m Hi IH] using map_ind.
+  - by rewrite !map_filter_empty, !map_size_empty.
+  - rewrite !map_filter_insert, !delete_notin by done. cbn [snd].
+    rewrite (map_size_insert_None _ _ m) by done.
+    destruct (decide (x ≤ T)), (decide (T < x)); try lia.
+    + rewrite map_size_insert_None; [lia|]. apply map_filter_lookup_None. by left.
+    + rewrite map_size_insert_None; [lia|]. apply map_filter_lookup_None. by left.
+Qed.
+
+Lemma gc_key_inner T k st :
+  no_empty_hash st →
+  foldr (λ f '(st, c), let '(st, r) := r_hdel k f st in (st, c + r)) (st, 0)
+        (map fst (map_to_list (filter (λ kv : list Z * Z, kv.2 ≤ T) (r_hash k st))))
+  = (r_put k (fresh T (r_hash k st)) st,
+     Z.of_nat (size (r_hash k st)) - Z.of_nat (size (fresh T (r_hash k st)))).
+Proof.
+  intros Hne. set (h := r_hash k st). set (stale := filter _ h).
+  change (map fst (map_to_list stale)) with ((map_to_list stale).*1).
+  assert (∀ f, f ∈ (map_to_list stale).*1 ↔ ∃ v, h !! f = Some v ∧ v ≤ T) as Hin.
+  { intros f. rewrite elem_of_list_fmap. split.
+    - intros ([f' v] & -> & Hel). apply elem_of_map_to_list in Hel.
+      apply map_filter_lookup_Some in Hel. by exists v.
+    - intros (v & Hv & Hle). exists (f, v). split; [done|].
+      apply elem_of_map_to_list. by apply map_filter_lookup_Some. }
+  rewrite gc_inner; [|done|apply NoDup_fst_map_to_list|].
+  2:{ intros f (v & Hv & _)%Hin. by exists v. }
+  fold h. f_equal.
+  - f_equal. apply map_eq. intros j. apply option_eq. intros y.
+    rewrite lookup_foldr_delete_Some. unfold fresh. rewrite map_filter_lookup_Some. cbn [snd].
+    rewrite Hin. split.
+    + intros [Hn Hj]. split; [done|]. destruct (decide (T < y)); [done|].
+      destruct Hn. exists y. split; [done|lia].
+    + intros [Hj Hlt]. split; [|done]. intros (v & Hv & Hle). simplify_eq. lia.
+  - rewrite fmap_length. pose proof (size_stale_fresh T h) as Hs. fold stale in Hs.
+    change (length (map_to_list stale)) with (size stale). lia.
+Qed.
+
+Lemma fresh_size_le (T : Z) (h : gmap (list Z) Z) : (size (fresh T h) ≤ size h)%nat.
+Proof. pose proof (size_stale_fresh T h). lia. Qed.
+
+Lemma red_gc_key_step T ih v6 s st sp :
+  red_inv st sp → ih_wf ih →
+  is_Some (r_hash (k_group v6) st !! k_swarm v6 s ih) →
+  role_step st (red_gc_key T v6 (k_swarm v6 s ih) st) ih v6 s (fresh T (r_hash (k_swarm v6 s ih) st)).
+Proof.
+  intros I Hwf Hreg. unfold red_gc_key. cbv zeta. rewrite gc_key_inner by apply I. cbv beta iota.
+  rewrite key_is_seeder_swarm. change (if s then k_scount v6 else k_lcount v6) with (k_cnt v6 s).
+  set (k := k_swarm v6 s ih) in *. set (h := r_hash k st). set (g := fresh T h).
+  set (G := r_hash (k_group v6) st) in *.
+  pose proof (fresh_size_le T h) as Hle. fold g in Hle.
+  set (removed := Z.of_nat (size h) - Z.of_nat (size g)).
+  rewrite r_hlen_0. rewrite if_incr_hash, r_hash_put.
+  case_bool_decide as Hg.
+  - rewrite r_hdel_Some; rewrite if_incr_hash, r_hash_put_ne by kne; [|done]. cbv beta iota. fold G.
+    split.
+    + rne. apply I.
+    + by rsimp.
+    + intros k' Hk1 Hk2. by rsimp.
+    + intros k' Hk'. rsimp. fold G. by rewrite lookup_delete_ne.
+    + done.
+    + rsimp. cdec. fold k h. destruct s, (0 <? removed) eqn:Hr; lia.
+    + unfold reg_count. rsimp. cdec. rewrite reg_size_delete.
+      rewrite (key_is_seeder_swarm v6 s ih : key_is_seeder k = s).
+      rewrite (ri_ic _ _ I). unfold reg_count. fold G. destruct Hreg as [v ->].
+      destruct s, (0 <? removed); lia.
+    + intros c Hc1 Hc2. rsimp. cdec. destruct s, (0 <? removed); lia.
+  - split.
+    + rne. apply I.
+    + by rsimp.
+    + intros k' Hk1 Hk2. by rsimp.
+    + intros k' Hk'. by rsimp.
+    + intros _. by rsimp.
+    + rsimp. cdec. fold k h. destruct (0 <? removed) eqn:Hr; lia.
+    + unfold reg_count. rsimp. cdec. rewrite (ri_ic _ _ I). unfold reg_count.
+      destruct (0 <? removed); lia.
+    + intros c Hc1 Hc2. rsimp. cdec. destruct (0 <? removed); lia.
+Qed.
+
+Lemma role_step_grp_frame st st' ih v6 s g v6' k' :
+  role_step st st' ih v6 s g → k' ≠ k_swarm v6 s ih →
+  r_hash (k_group v6') st' !! k' = r_hash (k_group v6') st !! k'.
+Proof.
+  intros R Hk. destruct (decide (v6' = v6)) as [->|Hv].
+  - by apply R.
+  - rewrite (rs_frame _ _ _ _ _ _ R); [done|kne|]. by intros Heq%k_group_inj.
+Qed.
+
+(* one pass over a list of registered keys of family v6 *)
+Lemma red_gc_fold T v6 l : ∀ st sp,
+  red_inv st sp → NoDup l → (∀ k, k ∈ l → is_Some (r_hash (k_group v6) st !! k)) →
+  ∃ sp', red_inv (foldr (red_gc_key T v6) st l) sp'
+    ∧ (∀ v6' k', k' ∉ l →
+         r_hash (k_group v6') (foldr (red_gc_key T v6) st l) !! k' = r_hash (k_group v6') st !! k')
+    ∧ (∀ ih v6' s, ih_wf ih →
+         role s (sm_get (ih, v6') sp') =
+         if decide (k_swarm v6' s ih ∈ l) then fresh T (role s (sm_get (ih, v6') sp))
+         else role s (sm_get (ih, v6') sp)).
+Proof.
+  induction l as [|k l IH]; intros st sp I Hnd Hreg.
+  - exists sp. split_and!; [done|done|]. intros ih v6' s Hwf. rewrite decide_False; [done|]. apply not_elem_of_nil.
+  - apply NoDup_cons in Hnd as [Hk Hnd].
+    destruct (IH st sp I Hnd) as (sp1 & I1 & Hfr1 & Hro1).
+    { intros k' Hk'. apply Hreg. by right. }
+    cbn [foldr]. set (st1 := foldr (red_gc_key T v6) st l) in *.
+    assert (is_Some (r_hash (k_group v6) st1 !! k)) as Hreg1.
+    { rewrite Hfr1 by done. apply Hreg. by left. }
+    destruct (ri_grp _ _ I1 _ _ Hreg1) as (s & ih & Hwf & ->).
+    pose proof (red_gc_key_step T ih v6 s st1 sp1 I1 Hwf Hreg1) as R.
+    eexists. split_and!.
+    + eapply role_step_inv; done.
+    + intros v6' k' Hk'. apply not_elem_of_cons in Hk' as [Hk1 Hk2].
+      rewrite (role_step_grp_frame _ _ _ _ _ _ _ _ R) by done. by apply Hfr1.
+    + intros ih' v6' s' Hwf'. rewrite role_sm_get_sp_upd.
+      destruct (decide ((ih', v6') = (ih, v6) ∧ s' = s)) as [[[= -> ->] ->]|Hne].
+      * rewrite decide_True by (by left). rewrite (ri_hash _ _ I1) by done.
+        rewrite Hro1 by done. by rewrite decide_False.
+      * rewrite Hro1 by done.
+        assert (k_swarm v6' s' ih' ≠ k_swarm v6 s ih) as Hkne.
+        { intros Heq. apply k_swarm_inj in Heq as (-> & -> & ->); [|done..]. by apply Hne. }
+        destruct (decide (k_swarm v6' s' ih' ∈ l)) as [Hin|Hin].
+        -- rewrite decide_True; [done|]. by right.
+        -- rewrite decide_False; [done|]. by apply not_elem_of_cons.
+Qed.
+
+Lemma red_gc_group_inv T v6 st sp :
+  red_inv st sp →
+  ∃ sp', red_inv (red_gc_group T v6 st) sp'
+    ∧ (∀ ih v6' s, ih_wf ih →
+         role s (sm_get (ih, v6') sp') =
+         if decide (v6' = v6) then fresh T (role s (sm_get (ih, v6') sp))
+         else role s (sm_get (ih, v6') sp)).
+Proof.
+  intros I. unfold red_gc_group.
+  set (G := r_hash (k_group v6) st).
+  change (map fst (map_to_list G)) with ((map_to_list G).*1).
+  assert (∀ k, k ∈ (map_to_list G).*1 ↔ is_Some (G !! k)) as Hin.
+  { intros k. rewrite elem_of_list_fmap. split.
+    - intros ([k' v] & -> & Hel). apply elem_of_map_to_list in Hel. by exists v.
+    - intros [v Hv]. exists (k, v). split; [done|]. by apply elem_of_map_to_list. }
+  destruct (red_gc_fold T v6 _ st sp I (NoDup_fst_map_to_list G)) as (sp' & I' & _ & Hro).
+  { intros k. by rewrite Hin. }
+  exists sp'. split; [done|]. intros ih v6' s Hwf. rewrite Hro by done.
+  destruct (decide (v6' = v6)) as [->|Hv].
+  - destruct (decide (k_swarm v6 s ih ∈ _)) as [Hel|Hel]; [done|].
+    rewrite Hin in Hel.
+    assert (r_hash (k_swarm v6 s ih) st = ∅) as He.
+    { destruct (decide (r_hash (k_swarm v6 s ih) st = ∅)) as [|Hne]; [done|].
+      destruct Hel. by apply (ri_reg _ _ I). }
+    rewrite (ri_hash _ _ I) in He by done. by rewrite He, fresh_empty.
+  - rewrite decide_False; [done|]. rewrite Hin. intros Hs.
+    destruct (ri_grp _ _ I _ _ Hs) as (s' & ih' & Hwf' & Heq).
+    apply k_swarm_inj in Heq as (-> & _); done.
+Qed.
+
+Lemma red_gc_inv T st sp : red_inv st sp → red_inv (red_gc T st) (sm_gc T sp).
+Proof.
+  intros I. unfold red_gc.
+  destruct (red_gc_group_inv T false st sp I) as (sp1 & I1 & H1).
+  destruct (red_gc_group_inv T true _ sp1 I1) as (sp2 & I2 & H2).
+  replace (sm_gc T sp) with sp2; [done|].
+  apply spec_ext; [apply I2|apply no_empty_gc|].
+  intros [ih v6]. rewrite sm_get_gc.
+  destruct (decide (ih_wf ih)) as [Hwf|Hwf].
+  - apply swarm_eq_role. intros s. rewrite H2, H1 by done.
+    destruct v6; cbn; by destruct s.
+  - rewrite !sm_get_None; [by rewrite sw_expire_empty| |].
+    + apply eq_None_not_Some. intros Hs. by apply Hwf, (ri_spec_wf _ _ I _ v6).
+    + apply eq_None_not_Some. intros Hs. by apply Hwf, (ri_spec_wf _ _ I2 _ v6).
+Qed.
+
+(* ---- every store operation preserves the invariant, against the same
+        operation of the specification *)
+Lemma set_role_id s sw : set_role s (role s sw) sw = sw.
+Proof. by destruct s, sw. Qed.
+Lemma sp_upd_id (k : list Z * bool) (s : bool) (sp : spec) :
+  no_empty_swarm sp → sp_upd k s (role s (sm_get k sp)) sp = sp.
+Proof.
+  intros Hne. unfold sp_upd. rewrite set_role_id. unfold sm_set, sm_get.
+  destruct (sp !! k) as [sw|] eqn:Hk; cbn.
+  - rewrite (Hne k sw Hk). by apply insert_id.
+  - by apply delete_notin.
+Qed.
+
+Lemma red_put_seeder_inv ih v6 pk t st sp :
+  red_inv st sp → ih_wf ih →
+  red_inv (red_put_seeder ih v6 pk t st) (st_put_seeder spec_if ih v6 pk t sp).
+Proof.
+  intros I Hwf. cbn [st_put_seeder spec_if]. rewrite sm_put_seeder_upd.
+  rewrite <-(ri_hash _ _ I) by done. eapply role_step_inv; [done..|]. by eapply red_put_seeder_step.
+Qed.
+Lemma red_put_leecher_inv ih v6 pk t st sp :
+  red_inv st sp → ih_wf ih →
+  red_inv (red_put_leecher ih v6 pk t st) (st_put_leecher spec_if ih v6 pk t sp).
+Proof.
+  intros I Hwf. cbn [st_put_leecher spec_if]. rewrite sm_put_leecher_upd.
+  rewrite <-(ri_hash _ _ I) by done. eapply role_step_inv; [done..|]. by eapply red_put_leecher_step.
+Qed.
+
+Lemma red_del_result s ih v6 pk st :
+  (red_del s ih v6 pk st).2 = bool_decide (is_Some (r_hash (k_swarm v6 s ih) st !! pk)).
+Proof.
+  assert (red_del s ih v6 pk st =
+          let '(st', r) := r_hdel (k_swarm v6 s ih) pk st in
+          if r =? 0 then (st, false) else (r_incrby (k_cnt v6 s) (-1) st', true)) as -> by (by destruct s).
+  destruct (r_hash (k_swarm v6 s ih) st !! pk) as [v|] eqn:Hpk.
+  - rewrite r_hdel_Some by (by eexists). cbv beta iota. cbn [Z.eqb snd]. by rewrite bool_decide_true.
+  - rewrite r_hdel_None by done. cbv beta iota. cbn [Z.eqb snd].
+    rewrite bool_decide_false; [done|]. by intros [? ?].
+Qed.
+
+Lemma red_del_seeder_inv ih v6 pk st sp :
+  red_inv st sp → ih_wf ih →
+  red_inv (red_del_seeder ih v6 pk st).1 (st_del_seeder spec_if ih v6 pk sp).1
+  ∧ (red_del_seeder ih v6 pk st).2 = (st_del_seeder spec_if ih v6 pk sp).2.
+Proof.
+  intros I Hwf. cbn [st_del_seeder spec_if]. rewrite sm_del_seeder_upd.
+  pose proof (role_step_inv _ _ _ _ _ _ _ I Hwf (red_del_step true ih v6 pk st sp I Hwf)) as I'.
+  pose proof (red_del_result true ih v6 pk st) as Hres.
+  rewrite (ri_hash _ _ I) in I', Hres by done. cbn [red_del] in I', Hres. rewrite Hres.
+  destruct (role true (sm_get (ih, v6) sp) !! pk) as [v|] eqn:Hpk; cbn [fst snd].
+  - split; [done|]. by rewrite bool_decide_true.
+  - rewrite delete_notin in I' by done. rewrite sp_upd_id in I' by apply I.
+    split; [done|]. rewrite bool_decide_false; [done|]. by intros [? ?].
+Qed.
+Lemma red_del_leecher_inv ih v6 pk st sp :
+  red_inv st sp → ih_wf ih →
+  red_inv (red_del_leecher ih v6 pk st).1 (st_del_leecher spec_if ih v6 pk sp).1
+  ∧ (red_del_leecher ih v6 pk st).2 = (st_del_leecher spec_if ih v6 pk sp).2.
+Proof.
+  intros I Hwf. cbn [st_del_leecher spec_if]. rewrite sm_del_leecher_upd.
+  pose proof (role_step_inv _ _ _ _ _ _ _ I Hwf (red_del_step false ih v6 pk st sp I Hwf)) as I'.
+  pose proof (red_del_result false ih v6 pk st) as Hres.
+  rewrite (ri_hash _ _ I) in I', Hres by done. cbn [red_del] in I', Hres. rewrite Hres.
+  destruct (role false (sm_get (ih, v6) sp) !! pk) as [v|] eqn:Hpk; cbn [fst snd].
+  - split; [done|]. by rewrite bool_decide_true.
+  - rewrite delete_notin in I' by done. rewrite sp_upd_id in I' by apply I.
+    split; [done|]. rewrite bool_decide_false; [done|]. by intros [? ?].
+Qed.
+
+Lemma red_graduate_inv ih v6 pk t st sp :
+  red_inv st sp → ih_wf ih →
+  red_inv (red_graduate ih v6 pk t st) (st_graduate spec_if ih v6 pk t sp).
+Proof.
+  intros I Hwf. cbn [st_graduate spec_if]. rewrite sm_graduate_upd.
+  pose proof (role_step_inv _ _ _ _ _ _ _ I Hwf (red_del_step false ih v6 pk st sp I Hwf)) as I1.
+  pose proof (red_graduate_step ih v6 pk t st sp I Hwf) as R. cbn zeta in R.
+  pose proof (role_step_inv _ _ _ _ _ _ _ I1 Hwf R) as I2.
+  rewrite (ri_hash _ _ I1) in I2 by done. rewrite role_sm_get_sp_upd in I2.
+  rewrite decide_False in I2 by (by intros [_ ?]).
+  rewrite (ri_hash _ _ I) in I2 by done. done.
+Qed.
+
+Lemma r_hash_init k : r_hash k redis_init = ∅.
+Proof. unfold r_hash, redis_init. cbn. by rewrite lookup_empty. Qed.
+
+Lemma red_inv_init : red_inv redis_init spec_init.
+Proof.
+  split.
+  - intros ih v6 s _. rewrite r_hash_init. unfold sm_get, spec_init. rewrite lookup_empty. cbn.
+    by rewrite role_empty.
+  - intros k sw Hs. unfold spec_init in Hs. by rewrite lookup_empty in Hs.
+  - intros ih v6 [? Hs]. unfold spec_init in Hs. by rewrite lookup_empty in Hs.
+  - apply no_empty_init.
+  - intros ih v6 s _ Hne. by rewrite r_hash_init in Hne.
+  - intros v6 k [? Hs]. by rewrite r_hash_init, lookup_empty in Hs.
+  - intros k Hne. by rewrite r_hash_init in Hne.
+  - intros v6 s. unfold spec_init. rewrite msum_empty. by destruct v6, s.
+  - intros v6. unfold reg_count. rewrite r_hash_init, reg_size_empty. by destruct v6.
+Qed.
+
+Lemma swarm_interaction_inv a c st sp :
+  red_inv st sp → ih_wf (a_ih a) →
+  red_inv (swarm_interaction red_if a c st) (swarm_interaction spec_if a c sp).
+Proof.
+  intros I Hwf. unfold swarm_interaction. destruct (a_event a).
+  - destruct (a_left a =? 0); [by apply red_put_seeder_inv|by apply red_put_leecher_inv].
+  - destruct (a_left a =? 0); [by apply red_put_seeder_inv|by apply red_put_leecher_inv].
+  - apply red_del_leecher_inv; [|done]. by apply red_del_seeder_inv.
+  - by apply red_graduate_inv.
+Qed.
+
+Lemma sapply_inv x y o :
+  sop_wf o → x.2 = y.2 → red_inv x.1 y.1 →
+  (sapply red_if x o).2 = (sapply spec_if y o).2 ∧ red_inv (sapply red_if x o).1 (sapply spec_if y o).1.
+Proof.
+  destruct x as [st c], y as [sp c']. cbn [fst snd]. intros Hwf <- I.
+  destruct o; cbn [sapply fst snd sop_wf] in *; (split; [done|]).
+  - done.
+  - by apply swarm_interaction_inv.
+  - by apply red_put_seeder_inv.
+  - by apply red_del_seeder_inv.
+  - by apply red_put_leecher_inv.
+  - by apply red_del_leecher_inv.
+  - by apply red_graduate_inv.
+  - by apply red_gc_inv.
+Qed.
+
+Lemma srun_inv_from ops : ∀ x y,
+  Forall sop_wf ops → x.2 = y.2 → red_inv x.1 y.1 →
+  (fold_left (sapply red_if) ops x).2 = (fold_left (sapply spec_if) ops y).2
+  ∧ red_inv (fold_left (sapply red_if) ops x).1 (fold_left (sapply spec_if) ops y).1.
+Proof.
+  induction ops as [|o ops IH]; intros x y Hwf Hc I; [done|].
+  apply Forall_cons in Hwf as [Ho Hwf]. cbn [fold_left].
+  destruct (sapply_inv x y o Ho Hc I) as [Hc' I']. by apply IH.
+Qed.
+
+(* the invariant holds after every well-formed sequential history *)
+Theorem red_inv_run ops : Forall sop_wf ops → red_inv (run_redis ops) (run_spec ops).
+Proof.
+  intros Hwf. unfold run_redis, run_spec, srun.
+  apply (srun_inv_from ops (redis_init, 0) (spec_init, 0)); [done|done|apply red_inv_init].
+Qed.
+
+Lemma red_inv_observe st sp ih v6 :
+  red_inv st sp → ih_wf ih → observe red_if st ih v6 = observe spec_if sp ih v6.
+Proof.
+  intros I Hwf. unfold observe. cbn [st_scrape st_members red_if spec_if].
+  unfold red_scrape, red_members, r_hlen, sm_scrape.
+  rewrite !(ri_hash _ _ I) by done. cbn [role]. unfold sm_get.
+  destruct (sp !! (ih, v6)) as [sw|] eqn:Hsw; cbn.
+  - pose proof (ri_spec_ne _ _ I _ _ Hsw) as Hne. unfold swarm_empty in Hne. rewrite Hne.
+    by rewrite swarm_eta.
+  - by rewrite map_size_empty.
+Qed.
+
+(* C01: the Redis store refines the specification *)
+Theorem redis_refines_spec : ∀ ops, Forall sop_wf ops →
+  ∀ ih v6, ih_wf ih → observe red_if (run_redis ops) ih v6 = observe spec_if (run_spec ops) ih v6.
+Proof. intros ops Hwf ih v6 Hih. apply red_inv_observe; [by apply red_inv_run|done]. Qed.
+
+(* ================================================================== D. totals (C17) *)
+
+Lemma fam_w_sum (s : bool) (sp : spec) :
+  msum (fam_w false s) sp + msum (fam_w true s) sp = msum (λ _ sw, Z.of_nat (size (role s sw))) sp.
+Proof.
+  rewrite <-msum_plus. apply msum_ext. intros [ih v6] sw. unfold fam_w. cbn [snd].
+  destruct v6; repeat case_decide; try done; lia.
+Qed.
+
+Lemma red_inv_prom st sp :
+  red_inv st sp →
+  red_prom st = (red_registered st, sm_total_seeders sp, sm_total_leechers sp).
+Proof.
+  intros I. unfold red_prom, red_registered.
+  rewrite !(ri_ic _ _ I).
+  change (k_scount false) with (k_cnt false true). change (k_scount true) with (k_cnt true true).
+  change (k_lcount false) with (k_cnt false false). change (k_lcount true) with (k_cnt true false).
+  rewrite !(ri_cnt _ _ I), !fam_w_sum. done.
+Qed.
+
+(* after every sequential history the exported totals are exact *)
+Theorem redis_totals_exact : ∀ ops, Forall sop_wf ops →
+  red_prom (run_redis ops) =
+  (red_registered (run_redis ops), sm_total_seeders (run_spec ops), sm_total_leechers (run_spec ops)).
+Proof. intros ops Hwf. by apply red_inv_prom, red_inv_run. Qed.
+
+Lemma reg_size_nonneg G : 0 <= reg_size G.
+Proof. unfold reg_size. lia. Qed.
+Lemma fam_w_nonneg v6 s k sw : 0 <= fam_w v6 s k sw.
+Proof. unfold fam_w. case_decide; lia. Qed.
+
+(* every single counter is exact and non-negative, not only the exported sums *)
+Theorem redis_counters_exact : ∀ ops, Forall sop_wf ops → ∀ v6,
+  r_get (k_scount v6) (run_redis ops) = msum (fam_w v6 true) (run_spec ops)
+  ∧ r_get (k_lcount v6) (run_redis ops) = msum (fam_w v6 false) (run_spec ops)
+  ∧ r_get (k_ihcount v6) (run_redis ops) = reg_count v6 (run_redis ops).
+Proof.
+  intros ops Hwf v6. pose proof (red_inv_run ops Hwf) as I. split_and!.
+  - apply (ri_cnt _ _ I v6 true).
+  - apply (ri_cnt _ _ I v6 false).
+  - apply (ri_ic _ _ I).
+Qed.
+
+Theorem redis_counters_nonnegative : ∀ ops, Forall sop_wf ops → ∀ v6,
+  0 <= r_get (k_scount v6) (run_redis ops)
+  ∧ 0 <= r_get (k_lcount v6) (run_redis ops)
+  ∧ 0 <= r_get (k_ihcount v6) (run_redis ops).
+Proof.
+  intros ops Hwf v6. destruct (redis_counters_exact ops Hwf v6) as (-> & -> & ->).
+  split_and!; [apply msum_nonneg, fam_w_nonneg..|apply reg_size_nonneg].
+Qed.
+
+Theorem redis_totals_nonnegative : ∀ ops, Forall sop_wf ops →
+  let '(i, s, l) := red_prom (run_redis ops) in 0 <= i ∧ 0 <= s ∧ 0 <= l.
+Proof.
+  intros ops Hwf. rewrite redis_totals_exact by done. split_and!.
+  - unfold red_registered, reg_count. pose proof (reg_size_nonneg (r_hash (k_group false) (run_redis ops))).
+    pose proof (reg_size_nonneg (r_hash (k_group true) (run_redis ops))). lia.
+  - rewrite sm_total_seeders_msum. apply msum_nonneg. intros. lia.
+  - rewrite sm_total_leechers_msum. apply msum_nonneg. intros. lia.
+Qed.
+
+(* ================================================================== E. corollaries (C05) *)
+
+Lemma run_redis_snoc ops o :
+  run_redis (ops ++ [o]) = (sapply red_if (srun red_if redis_init ops) o).1.
+Proof. unfold run_redis, srun. by rewrite fold_left_app. Qed.
+Lemma run_spec_snoc ops o :
+  run_spec (ops ++ [o]) = (sapply spec_if (srun spec_if spec_init ops) o).1.
+Proof. unfold run_spec, srun. by rewrite fold_left_app. Qed.
+
+Lemma run_redis_expire ops T : run_redis (ops ++ [SExpire T]) = red_gc T (run_redis ops).
+Proof. rewrite run_redis_snoc. unfold run_redis. by destruct (srun red_if redis_init ops). Qed.
+
+Lemma red_gc_hash T st sp ih v6 s :
+  red_inv st sp → ih_wf ih →
+  r_hash (k_swarm v6 s ih) (red_gc T st) = fresh T (r_hash (k_swarm v6 s ih) st).
+Proof.
+  intros I Hwf. rewrite (ri_hash _ _ (red_gc_inv T _ _ I)), (ri_hash _ _ I) by done.
+  rewrite sm_get_gc. by destruct s.
+Qed.
+
+Lemma red_gc_members T st sp ih v6 :
+  red_inv st sp → ih_wf ih →
+  red_members ih v6 (red_gc T st) =
+  match red_members ih v6 st with
+  | None => None
+  | Some sw => if swarm_empty (sw_expire T sw) then None else Some (sw_expire T sw)
+  end.
+Proof.
+  intros I Hwf. unfold red_members. rewrite !(red_gc_hash T st sp) by done.
+  set (hS := r_hash (k_swarm v6 true ih) st). set (hL := r_hash (k_swarm v6 false ih) st).
+  destruct (Nat.eqb (size hS) 0 && Nat.eqb (size hL) 0) eqn:He; [|done].
+  apply andb_true_iff in He as [HS HL]. apply Nat.eqb_eq, map_size_empty_iff in HS, HL.
+  by rewrite HS, HL, fresh_empty, map_size_empty.
+Qed.
+
+(* after an expiry pass with cutoff T every swarm holds exactly the entries
+   with time > T of what it held before; emptied swarms are unknown *)
+Theorem redis_gc_exact : ∀ ops T, Forall sop_wf ops → ∀ ih v6, ih_wf ih →
+  let st := run_redis ops in
+  let st' := run_redis (ops ++ [SExpire T]) in
+  (∀ s, r_hash (k_swarm v6 s ih) st' = fresh T (r_hash (k_swarm v6 s ih) st))
+  ∧ st_members red_if ih v6 st' =
+    match st_members red_if ih v6 st with
+    | None => None
+    | Some sw => if swarm_empty (sw_expire T sw) then None else Some (sw_expire T sw)
+    end
+  ∧ st_scrape red_if ih v6 st' =
+    (wrap32 (Z.of_nat (size (fresh T (r_hash (k_swarm v6 true ih) st)))),
+     wrap32 (Z.of_nat (size (fresh T (r_hash (k_swarm v6 false ih) st))))).
+Proof.
+  intros ops T Hwf ih v6 Hih. cbn zeta. rewrite run_redis_expire.
+  pose proof (red_inv_run ops Hwf) as I. split_and!.
+  - intros s. by eapply red_gc_hash.
+  - by eapply red_gc_members.
+  - cbn [st_scrape red_if]. unfold red_scrape, r_hlen. by rewrite !(red_gc_hash T _ _ _ _ _ I Hih).
+Qed.
+
+(* per membership: it survives the pass iff its time is after the cutoff *)
+Theorem redis_gc_peer : ∀ ops T, Forall sop_wf ops → ∀ ih v6 s pk t, ih_wf ih →
+  r_hash (k_swarm v6 s ih) (run_redis (ops ++ [SExpire T])) !! pk = Some t
+  ↔ r_hash (k_swarm v6 s ih) (run_redis ops) !! pk = Some t ∧ T < t.
+Proof.
+  intros ops T Hwf ih v6 s pk t Hih. rewrite run_redis_expire.
+  rewrite (red_gc_hash T _ _ _ _ _ (red_inv_run ops Hwf) Hih). unfold fresh.
+  by rewrite map_filter_lookup_Some.
+Qed.
+
+(* a put / graduate at clock c stores time c, whatever was stored before *)
+Theorem redis_put_refreshes : ∀ ops ih v6 pk, Forall sop_wf ops → ih_wf ih →
+  let c := (srun red_if redis_init ops).2 in
+  r_hash (k_swarm v6 true ih) (run_redis (ops ++ [SPutSeeder ih v6 pk])) !! pk = Some c
+  ∧ r_hash (k_swarm v6 false ih) (run_redis (ops ++ [SPutLeecher ih v6 pk])) !! pk = Some c
+  ∧ r_hash (k_swarm v6 true ih) (run_redis (ops ++ [SGraduate ih v6 pk])) !! pk = Some c
+  ∧ r_hash (k_swarm v6 false ih) (run_redis (ops ++ [SGraduate ih v6 pk])) !! pk = None.
+Proof.
+  intros ops ih v6 pk Hwf Hih. cbn zeta. rewrite !run_redis_snoc.
+  pose proof (red_inv_run ops Hwf) as I. unfold run_redis in I.
+  destruct (srun red_if redis_init ops) as [st c]. cbn [sapply fst snd] in *.
+  cbn [st_put_seeder st_put_leecher st_graduate red_if].
+  split_and!.
+  - rewrite (rs_hash _ _ _ _ _ _ (red_put_seeder_step ih v6 pk c _ _ I Hih)). apply lookup_insert.
+  - rewrite (rs_hash _ _ _ _ _ _ (red_put_leecher_step ih v6 pk c _ _ I Hih)). apply lookup_insert.
+  - rewrite (rs_hash _ _ _ _ _ _ (red_graduate_step ih v6 pk c _ _ I Hih)). apply lookup_insert.
+  - pose proof (red_graduate_step ih v6 pk c _ _ I Hih) as R. cbn zeta in R.
+    rewrite (rs_frame _ _ _ _ _ _ R); [|intros Heq; apply k_swarm_inj in Heq as (_ & ? & _); done|kne].
+    rewrite (rs_hash _ _ _ _ _ _ (red_del_step false ih v6 pk _ _ I Hih)). apply lookup_delete.
+Qed.
+
+(* a re-announce restarts the lifetime: the entry survives any pass whose
+   cutoff lies before the clock of the re-announce *)
+Theorem redis_reannounce_survives : ∀ ops ih v6 pk T, Forall sop_wf ops → ih_wf ih →
+  let c := (srun red_if redis_init ops).2 in
+  T < c →
+  r_hash (k_swarm v6 true ih) (run_redis ((ops ++ [SPutSeeder ih v6 pk]) ++ [SExpire T])) !! pk = Some c
+  ∧ r_hash (k_swarm v6 false ih) (run_redis ((ops ++ [SPutLeecher ih v6 pk]) ++ [SExpire T])) !! pk = Some c
+  ∧ r_hash (k_swarm v6 true ih) (run_redis ((ops ++ [SGraduate ih v6 pk]) ++ [SExpire T])) !! pk = Some c.
+Proof.
+  intros ops ih v6 pk T Hwf Hih c Hlt.
+  destruct (redis_put_refreshes ops ih v6 pk Hwf Hih) as (H1 & H2 & H3 & _). fold c in H1, H2, H3.
+  split_and!; apply redis_gc_peer; try done; apply Forall_app; (split; [done|]); by apply Forall_singleton.
+Qed.
